@@ -2,7 +2,7 @@
 # Re-run every seeded change against its property's quick check (default budget) on a snapshot of /repo:
 #   vp run --with-repo --timeout 6h -- tools/bg_seeded_all.sh [ID...]
 R=${VP_RUN_REPO:?needs --with-repo}
-sed -i "s#/repo/src/lib.rs#$R/src/lib.rs#" sim/Cargo.toml
+sed -i "s#/repo/src/lib.rs#$R/src/lib.rs#" sim/Cargo.toml; sed -i "s#/repo/src/#$R/src/#g" miri/src/main.rs
 export CARGO_NET_OFFLINE=true
 IDS="$@"; [ -z "$IDS" ] && IDS=$(ls /verif/seeded)
 for ID in $IDS; do
